@@ -1351,11 +1351,11 @@ func (p *wat2cWorker) buildFunc_ins(w io.Writer, fn *ast.Func, stk *valueTypeSta
 	case token.INS_F32_CONST:
 		i := i.(ast.Ins_F32Const)
 		sp0 := stk.Push(token.F32)
-		fmt.Fprintf(w, "%sR%d.f32 = %f; // %s\n", indent, sp0, i.X, insString(i))
+		fmt.Fprintf(w, "%sR%d.f32 = %x; // %s\n", indent, sp0, i.X, insString(i))
 	case token.INS_F64_CONST:
 		i := i.(ast.Ins_F64Const)
 		sp0 := stk.Push(token.F64)
-		fmt.Fprintf(w, "%sR%d.f64 = %f; // %s\n", indent, sp0, i.X, insString(i))
+		fmt.Fprintf(w, "%sR%d.f64 = %x; // %s\n", indent, sp0, i.X, insString(i))
 	case token.INS_I32_EQZ:
 		sp0 := stk.Pop(token.I32)
 		ret0 := stk.Push(token.I32)
